@@ -21,4 +21,6 @@ func init() {
 		}
 	}
 	CoverageGet = func() []uint8 { return verifrt.Hits[:] }
+	syncDepthGet = func() int { return verifrt.SyncDepth }
+	rawHookSet = func(f func()) { verifrt.Hook = f }
 }
